@@ -40,4 +40,147 @@ theorem fold_lt (c : Nat) : Cksum.fold c < 65536 := by
   generalize Gp.Gen.Cksum.foldChecksum_loop1 4 (Int.ofNat c) = x
   omega
 
+/-! ## Decoding what SerializeTo wrote -/
+
+/-- A well-formed layer whose IHL and Length fields describe its own encoding over `p`
+    payload bytes (what FixLengths establishes). -/
+def wireOk (m : Layer) (p : Nat) : Prop :=
+  wf m ∧ m.ihl = 5 + optionSize m / 4 ∧ m.length = 20 + optionSize m + p
+
+theorem decodeSpec_hdrBytes (old m : Layer) (payload : Bytes) (h : wireOk m payload.length) :
+    decodeSpec true old (hdrBytes m ++ payload) =
+      ⟨{ m with contents := hdrBytes m, payload := payload }, false, false⟩ := by
+  obtain ⟨⟨w1, w2, w3, w4, w5, w6, w7, w8, w9, w10, w11, w12, w13, w14, w15, w16⟩, hihl, hlen⟩ := h
+  obtain ⟨s0, s1, s2, s3, hs⟩ := exists_cons4 m.srcIP w11
+  obtain ⟨d0, d1, d2, d3, hd⟩ := exists_cons4 m.dstIP w12
+  have hos : optionSize m = optsSize m.options + m.padding.length := align4_of_mod w15
+  have hoa : optArea m = optsBytes m.options ++ m.padding := by
+    simp [optArea, hos]
+  have hoal : (optsBytes m.options ++ m.padding).length = optionSize m := by
+    rw [List.length_append, optsBytes_length _ (optsWf_valid w13), hos]
+  have hH : hdrBytes m = byte0 m :: u8 m.tos :: u8 (m.length % 65536 / 256) :: u8 (m.length % 65536) ::
+      u8 (m.id % 65536 / 256) :: u8 (m.id % 65536) :: u8 (flagsfrags m / 256) :: u8 (flagsfrags m) ::
+      u8 m.ttl :: u8 m.protocol :: u8 (m.checksum % 65536 / 256) :: u8 (m.checksum % 65536) ::
+      s0 :: s1 :: s2 :: s3 :: d0 :: d1 :: d2 :: d3 :: (optsBytes m.options ++ m.padding) := by
+    simp [hdrBytes, hdrW, hdr20, Gp.putBe16, hs, hd, hoa]
+  have hlen' : (hdrBytes m ++ payload).length = m.length := by
+    rw [hH]; simp only [List.length_append, List.length_cons, hoal]; omega
+  have hHl : (hdrBytes m).length = 20 + optionSize m := by
+    rw [hH]; simp only [List.length_cons, hoal]; omega
+  have hihl16 : m.version * 16 + m.ihl = (byte0 m).toNat := (byte0_toNat m w1 w2).symm
+  generalize hdata : hdrBytes m ++ payload = data at hlen' ⊢
+  have g : ∀ i, i < 20 → getB data i = getB (hdrBytes m) i := by
+    intro i hi; rw [← hdata]; simp [getB, List.getD, List.getElem?_append_left (by omega : i < (hdrBytes m).length)]
+  have g0 : getB data 0 = byte0 m := by rw [g 0 (by omega), hH]; rfl
+  have g1 : getB data 1 = u8 m.tos := by rw [g 1 (by omega), hH]; rfl
+  have g2 : getB data 2 = u8 (m.length % 65536 / 256) := by rw [g 2 (by omega), hH]; rfl
+  have g3 : getB data 3 = u8 (m.length % 65536) := by rw [g 3 (by omega), hH]; rfl
+  have g4 : getB data 4 = u8 (m.id % 65536 / 256) := by rw [g 4 (by omega), hH]; rfl
+  have g5 : getB data 5 = u8 (m.id % 65536) := by rw [g 5 (by omega), hH]; rfl
+  have g6 : getB data 6 = u8 (flagsfrags m / 256) := by rw [g 6 (by omega), hH]; rfl
+  have g7 : getB data 7 = u8 (flagsfrags m) := by rw [g 7 (by omega), hH]; rfl
+  have g8 : getB data 8 = u8 m.ttl := by rw [g 8 (by omega), hH]; rfl
+  have g9 : getB data 9 = u8 m.protocol := by rw [g 9 (by omega), hH]; rfl
+  have g10 : getB data 10 = u8 (m.checksum % 65536 / 256) := by rw [g 10 (by omega), hH]; rfl
+  have g11 : getB data 11 = u8 (m.checksum % 65536) := by rw [g 11 (by omega), hH]; rfl
+  have hsrc : (data.drop 12).take 4 = m.srcIP := by rw [← hdata, hH, hs]; rfl
+  have hdst : (data.drop 16).take 4 = m.dstIP := by rw [← hdata, hH, hd]; rfl
+  have hopt : (data.drop 20).take (optionSize m) = optsBytes m.options ++ m.padding := by
+    rw [← hdata, hH]; simp only [List.cons_append, List.drop_succ_cons, List.drop_zero]
+    rw [List.take_left' hoal]
+  have htake : data.take (20 + optionSize m) = hdrBytes m := by rw [← hdata, List.take_left' hHl]
+  have hdrop : data.drop (20 + optionSize m) = payload := by rw [← hdata, List.drop_left' hHl]
+  have hL : Gp.be16 (getB data 2) (getB data 3) = m.length := by
+    rw [g2, g3, Nat.mod_eq_of_lt w4, be16_putBe16 _ w4]
+  have hI : (getB data 0).toNat % 16 = m.ihl := by rw [g0, ← hihl16]; omega
+  have hV : (getB data 0).toNat / 16 = m.version := by rw [g0, ← hihl16]; omega
+  have hT : (getB data 1).toNat = m.tos := by rw [g1, u8_toNat _ w3]
+  have hId : Gp.be16 (getB data 4) (getB data 5) = m.id := by
+    rw [g4, g5, Nat.mod_eq_of_lt w5, be16_putBe16 _ w5]
+  have hff := flagsfrags_eq m w6 w7
+  have hFF : Gp.be16 (getB data 6) (getB data 7) = m.flags * 8192 + m.fragOffset := by
+    rw [g6, g7, be16_putBe16 _ (by omega), hff]
+  have hTtl : (getB data 8).toNat = m.ttl := by rw [g8, u8_toNat _ w8]
+  have hPr : (getB data 9).toNat = m.protocol := by rw [g9, u8_toNat _ w9]
+  have hCk : Gp.be16 (getB data 10) (getB data 11) = m.checksum := by
+    rw [g10, g11, Nat.mod_eq_of_lt w10, be16_putBe16 _ w10]
+  have hmod : optionSize m % 4 = 0 := by rw [hos]; exact w15
+  have h4 : m.ihl * 4 = 20 + optionSize m := by omega
+  have h20 : ¬ data.length < 20 := by omega
+  have hne : m.length ≠ 0 := by omega
+  unfold decodeSpec
+  simp only [h20, if_false, hL, hI, hne]
+  unfold decodeSpecL
+  have c1 : ¬ m.length < 20 := by omega
+  have c2 : ¬ m.ihl < 5 := by omega
+  have c3 : ¬ m.ihl * 4 > m.length := by omega
+  have c4 : ¬ data.length > m.length := by omega
+  have c5 : ¬ data.length < m.length := by omega
+  simp only [c1, c2, c3, c4, c5, if_false]
+  unfold specBody
+  have h5 : m.ihl * 4 - 20 = optionSize m := by omega
+  have hpar := ser_parse m.options [] m.padding (optionSize m + 1) w13 w14 (by rw [hoal]; omega)
+  simp only [h4, Nat.add_sub_cancel_left, hopt, hpar, htake, hdrop, hV, hT, hId, hFF, hTtl, hPr, hCk, hsrc, hdst,
+    Bool.false_eq_true, if_false, List.nil_append, Bool.or_self]
+  have hfl : (m.flags * 8192 + m.fragOffset) / 8192 = m.flags := by omega
+  have hfo : (m.flags * 8192 + m.fragOffset) % 8192 = m.fragOffset := by omega
+  rw [hfl, hfo]
+  cases hl : lastIsEol m.options with
+  | true => simp
+  | false =>
+    have : m.padding = [] := by
+      cases hp : m.padding with
+      | nil => rfl
+      | cons a t => have := w14 (by simp [hp]); rw [hl] at this; cases this
+    simp [this]
+
+theorem src4_of_wf {l : Layer} (h : wf l) : src4 l = l.srcIP ∧ dst4 l = l.dstIP := by
+  obtain ⟨-, -, -, -, -, -, -, -, -, -, w11, w12, -⟩ := h
+  simp [src4, dst4, to4_of_length4 _ w11, to4_of_length4 _ w12]
+
+theorem wf_accepts {l : Layer} (h : wf l) : accepts l := by
+  obtain ⟨-, -, -, -, -, -, -, -, -, -, w11, w12, w13, -, w15, w16⟩ := h
+  refine ⟨?_, by simp [to4_of_length4 _ w11], by simp [to4_of_length4 _ w12], optsWf_valid w13⟩
+  unfold optionSize; rw [align4_of_mod w15]; exact w16
+
+/-- FixLengths (+ ComputeChecksums) turns a well-formed layer into one that describes its own
+    encoding. -/
+theorem wireOk_final (l : Layer) (p : Nat) (csum : Bool) (h : wf l)
+    (hp : 20 + optionSize l + p ≤ 65535) :
+    wireOk (finalLayer l p true csum l.srcIP l.dstIP) p := by
+  obtain ⟨w1, w2, w3, w4, w5, w6, w7, w8, w9, w10, w11, w12, w13, w14, w15, w16⟩ := h
+  have hos : optionSize l = optsSize l.options + l.padding.length := align4_of_mod w15
+  have hck := fold_lt
+  cases csum <;>
+    simp only [wireOk, wf, finalLayer, fixLengths, optionSize, if_true, Bool.false_eq_true, if_false] <;>
+    simp only [optionSize] at hos hp <;>
+    refine ⟨⟨w1, by omega, w3, by omega, w5, w6, w7, w8, w9, by first | exact w10 | exact hck _, w11, w12, w13, w14,
+      w15, w16⟩, by omega, by omega⟩
+
+/-! ## SerializeTo reads the public fields only -/
+
+theorem finalLayer_setCP (x : Layer) (C P : Bytes) (p : Nat) (fix csum : Bool) (s d : Bytes) :
+    finalLayer { x with contents := C, payload := P } p fix csum s d =
+      { finalLayer x p fix csum s d with contents := C, payload := P } := by
+  cases fix <;> cases csum <;>
+    simp [finalLayer, fixLengths, optionSize, hdrW, hdr20, byte0, flagsfrags, optArea]
+
+theorem hdrBytes_setCP (y : Layer) (C P : Bytes) :
+    hdrBytes { y with contents := C, payload := P } = hdrBytes y := by
+  simp [hdrBytes, hdrW, hdr20, byte0, flagsfrags, optArea, optionSize]
+
+theorem accepts_setCP (x : Layer) (C P : Bytes) (h : accepts x) :
+    accepts { x with contents := C, payload := P } := h
+
+/-- The other fields are untouched by the mutation. -/
+theorem finalLayer_other_fields (l : Layer) (p : Nat) (fix csum : Bool) (s d : Bytes) :
+    let l' := finalLayer l p fix csum s d
+    l'.version = l.version ∧ l'.tos = l.tos ∧ l'.id = l.id ∧ l'.flags = l.flags ∧
+    l'.fragOffset = l.fragOffset ∧ l'.ttl = l.ttl ∧ l'.protocol = l.protocol ∧
+    l'.options = l.options ∧ l'.padding = l.padding ∧ l'.srcIP = s ∧ l'.dstIP = d ∧
+    (fix = true → l'.ihl = (5 + (optionSize l / 4) % 256) % 256 ∧ l'.length = (20 + optionSize l + p) % 65536) ∧
+    (fix = false → l'.ihl = l.ihl ∧ l'.length = l.length) ∧
+    (csum = false → l'.checksum = l.checksum) := by
+  cases fix <;> cases csum <;> simp [finalLayer, fixLengths]
+
 end Gp.Ip4
